@@ -486,6 +486,26 @@ diskdump_read_page(struct page_io *pio)
 static kdump_status
 diskdump_get_page(struct page_io *pio)
 {
+	kdump_ctx_t *ctx = pio->ctx;
+
+	/* The cache may hold zeroes for an excluded page from the time
+	 * when file.zero_excluded was set, so check before the lookup.
+	 */
+	if (!get_zero_excluded(ctx)) {
+		struct disk_dump_priv *ddp = ctx->shared->fmtdata;
+		kdump_pfn_t pfn = pio->addr.addr >> get_page_shift(ctx);
+		const struct pfn_file_map *pdmap;
+
+		if (pfn < get_max_pfn(ctx)) {
+			pdmap = find_pfn_file_map(ddp->pdmap,
+						  ddp->num_files, pfn);
+			if (!pdmap || pdmap->start_pfn > pfn ||
+			    pfn_to_pdpos(pdmap, pfn) == (off_t)-1)
+				return set_error(ctx, KDUMP_ERR_NODATA,
+						 "Excluded page");
+		}
+	}
+
 	return cache_get_page(pio, diskdump_read_page);
 }
 
